@@ -81,7 +81,8 @@ def label(shape, pick, root=True):
     return node(pick("q"), pick("a"), pick("t"), kids, None if root else pick("tl"))
 
 
-SAFE_ATTRS = [[], [], [["k", "v"]], [["{urn:b}k", "a b"], ["j", ""]], [["id", "u:v"], ["h", "p://x"]]]
+SAFE_ATTRS = [[], [], [["k", "v"]], [["{urn:b}k", "a b"], ["j", ""]], [["id", "u:v"], ["h", "p://x"]],
+              [["k", "{urn:q}bar"]]]      # a value spelled as a Clark name (no datatype): kept literally
 # attributes that trigger the listed findings (kept out of the "clean" streams)
 RISKY_ATTRS = [
     [["k", "p:bar"]],                       # declared prefix: rewritten to Clark form
